@@ -416,6 +416,27 @@ def replay_case(arg):
                      else 'integer_vector_gradient', dict(float=[vf, float(sf)], int=[vi, float(si)], x=xi.tolist()))
         except Exception as e:
             fail('Evaluable', type(e).__name__, dict(op='integer vector', error=repr(e)))
+    # ---- the individual likelihoods carry their labels on: a second hierarchical likelihood made of one of them and a NEW,
+    # unlabelled one (whose position would give it the label the first one already has) is either refused or has distinct IDs
+    if not fails and rec['nids'] >= 2 and not rec.get('_labels'):
+        try:
+            with warnings.catch_warnings():
+                warnings.simplefilter('ignore')
+                fresh = chi.LogLikelihood(probes.ProbeMech(lls[1]._mechanistic_model.n_parameters(), 1, tag='p' + key + 'x'),
+                                          chi.GaussianErrorModel(), data[0][1], data[0][0])
+                pop2 = chi.ComposedPopulationModel([chi.PooledModel(n_dim=fresh.n_parameters())])
+                try:
+                    h2 = chi.HierarchicalLogLikelihood([lls[1], fresh], pop2)
+                except ValueError:
+                    h2 = None
+                    cnt['reused_labelled_likelihood_refused'] = 1
+            if h2 is not None:
+                wid2 = h2.get_parameter_names(include_ids=True)
+                uid2 = h2.get_id(unique=True)
+                if len(set(uid2)) != len(uid2) or len(set(wid2)) != len(wid2):
+                    fail('UniqueDefault', 'duplicate_ids_after_reusing_a_labelled_likelihood', dict(ids=list(uid2)))
+        except Exception as e:
+            fail('Evaluable', type(e).__name__, dict(op='reused labelled likelihood', error=repr(e)))
     # ---- a boundary that is INSIDE the domain: the scale of a non-centred Gaussian dimension exactly zero (psi = mu for every
     # individual, the etas still scored as standard normal) -- a finite, documented value
     if not fails and n > 0:
